@@ -131,7 +131,7 @@ def r_dispatch(repo, rep, R='R19.2'):
         if isinstance(n, ast.Call) and isinstance(n.func, ast.Attribute) and n.func.attr == 'add_argument' and \
                 any(isinstance(a, ast.Constant) and a.value == '--format' for a in n.args):
             kw = {k.arg: k.value for k in n.keywords}
-            ch = kw.get('choices')
+            ch = am.literal(kw.get('choices'))
             if not isinstance(ch, (ast.List, ast.Tuple)):
                 raise AnalysisError('depccg/argparse.py:%s --format choices are not a literal list' % n.lineno)
             choices[src(n.func.value)] = ([e.value for e in ch.elts], kw.get('default'), n)
